@@ -56,11 +56,12 @@ type Spec struct {
 	FailOnKill        bool   `json:"failOnKill,omitempty"`        // panic while handling OnKill
 	FailOnChildKilled int    `json:"failOnChildKilled,omitempty"` // panic on the first n OnKilled of children
 	FailOnOwnKilled   bool   `json:"failOnOwnKilled,omitempty"`
-	OnLaunch          []Step `json:"onLaunch,omitempty"`      // program run by every incarnation on OnLaunch
-	GateKill          string `json:"gateKill,omitempty"`      // gate the OnKill handler blocks on
-	RespawnKilled     bool   `json:"respawnKilled,omitempty"` // on a child's OnKilled (while running) respawn it under the same name, once per name
-	RespawnAlways     bool   `json:"respawnAlways,omitempty"` // with RespawnKilled: every time, not once per name
-	LateSpawn         int    `json:"lateSpawn,omitempty"`     // while terminating: on a child's OnKilled spawn a fresh child "lateN" (at most this many times)
+	OnLaunch          []Step `json:"onLaunch,omitempty"`         // program run by every incarnation on OnLaunch
+	GateKill          string `json:"gateKill,omitempty"`         // gate the OnKill handler blocks on
+	RespawnKilled     bool   `json:"respawnKilled,omitempty"`    // on a child's OnKilled (while running) respawn it under the same name, once per name
+	RespawnAlways     bool   `json:"respawnAlways,omitempty"`    // with RespawnKilled: every time, not once per name
+	LateSpawn         int    `json:"lateSpawn,omitempty"`        // while terminating: on a child's OnKilled spawn a fresh child "lateN" (at most this many times)
+	FailDyingOnChild  int    `json:"failDyingOnChild,omitempty"` // panic on the first n OnKilled of children that arrive while this actor is itself terminating
 }
 
 // Msg is the only user message.
@@ -478,6 +479,7 @@ type probe struct {
 	respawned   map[string]bool
 	gotKill     bool
 	lateSpawned int
+	dyingFails  int
 }
 
 type hookFailure struct{ what string }
@@ -590,6 +592,9 @@ func (p *probe) receive(ctx vivid.ActorContext, beh string) {
 			name := rp[len(me)+1:]
 			_, err := w.spawn(ctx, p.name(ctx), Spec{Name: name})
 			w.call(p.name(ctx), "respawn:"+name, 0, err, "")
+		} else if p.gotKill && p.dyingFails < p.sh.spec.FailDyingOnChild {
+			p.dyingFails++
+			panic("verif: child OnKilled failure while terminating")
 		} else if p.killedSeen < p.sh.spec.FailOnChildKilled {
 			p.killedSeen++
 			panic("verif: child OnKilled failure")
